@@ -272,7 +272,13 @@ TRANSLATORS = {"scoring": ([("ScoringGen.v", "scoring")], "ScoringGenProof.v"),
                "gsres": ([("GsResGen.v", "gs_res")], "GsResGenProof.v"),
                "gshosp": ([("GsResGen.v", "gs_res"), ("GsHospGen.v", "gs_hosp")], "GsHospGenProof.v"),
                "elicitvoting": ([("ScoringGen.v", "scoring"), ("ElicitVoteGen.v", "elicitvoting")], "ElicitVoteGenProof.v"),
-               "irvsmall": ([("IrvSmallGen.v", "irvsmall")], "IrvSmallGenProof.v")}
+               "irvsmall": ([("IrvSmallGen.v", "irvsmall")], "IrvSmallGenProof.v"),
+               "posgraph": ([("PosGraphGen.v", "posgraph")], "PosGraphGenProof.v"),
+               "complete": ([("CompleteGen.v", "complete")], "CompleteGenProof.v"),
+               "thrrules": ([("BsearchGen.v", "bsearch"), ("BsearchGenProof.v", None), ("ThrGen.v", "thrrules")], "ThrGenProof.v"),
+               "mwcs": ([("MwcsGen.v", "mwcs")], "MwcsGenProof.v"),
+               "validators": ([("ValGen.v", "validators")], "ValGenProof.v"),
+               "eatscf": ([("EatScfGen.v", "eatscf")], "EatScfGenProof.v")}
 
 def translator_obligation(name):
     """regenerate the model of <name> from /repo's current source (harness/translate.py), compile it, and re-check the
